@@ -17,17 +17,17 @@ CHECKS = {
    category="fault_enumeration",
    text="One fault per run on top of an always-run fault-free baseline: sites are enumerated from the independent container model — every bit of every sync marker incl. the header's, every bit of every snappy checksum, every bit of one block's compressed payload (quick: sampled bits), every bit of the magic, header without schema / with unknown codec names / without codec entry, callback failure at EVERY record index. Damage must be refused with earlier blocks delivered exactly and nothing past the damaged block; 'decompressor rejects' is decided by calling flate / snappy+CRC directly. The fault-free clause demands exactly the declared records equal to the written values.",
    design_ref="§5 C07",
-   note="Files are a seeded sample (17 curated types, 3 codecs + no-codec, both writers). When flate accepts an altered stream nothing is demanded (deflate has no checksum) and the read is not executed.",
+   note="Files are a seeded sample (18 curated types, 3 codecs + no-codec, both writers). When flate accepts an altered stream nothing is demanded (deflate has no checksum) and the read is not executed.",
    technique="deterministic simulation: SimDisk stored-byte faults enumerated per file from a container model + callback fault at every index"),
  "C09": dict(
    category="exploration",
    text="Seeded call histories over {Encode(record of chosen size), Flush} run against a fault-free SimDisk; after EVERY call the bytes on disk are parsed by the independent container model and compared with a framing model (pending list, per-record encodings from the library's own codec): only complete blocks visible, count>=1, exact byte length, header's sync, payload == concatenation of the next 'count' encodings in order, block emitted as soon as pending bytes reach the block size and not before (unless Flush is called), Flush leaves nothing pending and emits no block when nothing is pending, conservation.",
    design_ref="§5 C09",
-   note="Sampled histories (length 1..200, block sizes incl. 0/1/2/near-record-size/exact sums/huge, 3 codecs, zero-width/one-byte/padded/nested records, records up to 3 MiB, record counts and byte lengths at varint boundaries). A block emitted by Encode must hold at least the block size (NewEncoderFor's documented contract); when the header is written is not judged. Fault-free writer only: what the encoder owes after a failed write is not stated by the property and not judged.",
+   note="Sampled histories (length 1..200, block sizes incl. 0/1/2/near-record-size/exact sums/huge, 3 codecs, zero-width/one-byte/padded/nested records, records up to 3 MiB, record counts and byte lengths at varint boundaries). A block emitted by Encode must hold at least the block size (NewEncoderFor's documented contract); when the header is written is not judged. The observed encoder's writer is fault-free: what an encoder owes after its own failed write is not stated by the property and not judged. In a sixth of the plans a second encoder lives in the process on a writer that fails, and is used (also after its failure) between the observed encoder's calls; the observed encoder's output is judged as before.",
    technique="deterministic simulation: seeded call histories against SimDisk with a reference framing model checked after every step"),
  "C16": dict(
    category="fault_enumeration",
-   text="For each seeded history (NewEncoderFor+Encode/Flush, or NewFileWriter+WriteHeader+WriteBlock*) the fault-free run gives the reference stream F and W writes; then EVERY write index k is failed in five variants (error; short write of 1, len/2, len-1 bytes; error after all bytes were taken) with the sync marker pinned through crypto/rand.Reader. Required: no panic, the call that issued write k returns an error wrapping the injected one, bytes accepted are byte-for-byte a prefix of F.",
+   text="For each seeded history (NewEncoderFor+Encode/Flush, or NewFileWriter+WriteHeader+WriteBlock*) the fault-free run gives the reference stream F and W writes; then EVERY write index k is failed in five variants (error; short write of 1, len/2, len-1 bytes; error after all bytes were taken; the error value is a bare sentinel, a *fs.PathError around it, or a value answering Temporary()/Timeout() true) with the sync marker pinned through crypto/rand.Reader. Required: no panic, the call that issued write k returns an error wrapping the injected one, bytes accepted are byte-for-byte a prefix of F.",
    design_ref="§5 C16",
    note="Histories are a seeded sample; per history the fault enumeration over k is complete. Record types without multi-entry maps only. Behaviour after the first failed call is not judged.",
    technique="deterministic simulation: SimDisk write-fault enumeration (every write index x 5 variants) against the fault-free run of the same history"),
@@ -35,7 +35,7 @@ CHECKS = {
    category="exploration",
    text="1..3 ReadFile tasks run as coroutines over their own multi-block files (3 codecs, both writers) interleaved by the plan, plus a direct ReadBuf/ResourceBank user; the bank pool is the simulator's (hooks): each bank request gets the oldest / newest / another free bank or a fresh one, as the plan says. After EVERY operation: every record whose bank is open equals the deep copy taken at delivery and equals the same record read with fresh banks only; every Alloc is all-zero on return although the previous owner poisoned the memory before closing; all live allocations and interned strings are pairwise disjoint; no bank is issued to two live users.",
    design_ref="§5 C10",
-   note="Sampled histories (<=150 operations incl. step/close/abort/restart of readers, gc+churn, allocation bursts, direct ReadBuf use with Reset+decode). The simulated pool over-approximates sync.Pool (any previously closed bank or a new one). Nothing is inspected after its bank is closed. Additional oracles: same record read with fresh banks only; each record alone vs after its predecessors; one retain-all read per file (zone names of decoded times included).",
+   note="Sampled histories (<=150 operations incl. step/close/abort/restart of readers, gc+churn, allocation bursts, 70 unrelated zone offsets parsed in between, direct ReadBuf use with Reset+decode). The simulated pool over-approximates sync.Pool (any previously closed bank or a new one). Nothing is inspected after its bank is closed. Additional oracles: same record read with fresh banks only; each record alone vs after its predecessors; one retain-all read per file (zone names of decoded times included).",
    technique="deterministic simulation: interleaved reader coroutines + simulator-owned bank pool (plan-chosen recycling), invariants after every step"),
  "C11": dict(
    category="exploration",
@@ -45,15 +45,15 @@ CHECKS = {
    technique="deterministic simulation: simulator-owned GC schedule (GC points as injected events) with run-A/run-B metamorphic oracle"),
  "C12": dict(
    category="exploration",
-   text="2..6 real goroutines run seeded lists of independent operations (build codecs, Register/RegisterSchema own types with versioned builders, decode/encode with SHARED codecs, ReadFile, Encoder, close banks received from other goroutines, SchemaForType, timestamp parsing with seeded zone offsets) under a token scheduler that releases one goroutine at a time from the plan's pre-drawn schedule and is invisible to the Go race detector (//go:norace spin on a plain word). Judge 1: the race detector's report stream must be empty. Judge 2: every operation's result equals the result of that goroutine's list re-executed alone. The simulated bank pool contributes exactly sync.Pool's Put->Get edge per bank.",
+   text="2..6 real goroutines run seeded lists of independent operations (build codecs, Register/RegisterSchema own types with versioned builders, decode/encode with SHARED codecs, ReadFile, Encoder, close banks received from other goroutines, SchemaForType incl. a struct over types registered with composite schemas, schema text 30-60 levels deep, timestamp parsing with seeded zone offsets, times as scaled longs, decoding a torn record with a shared codec, bank churn with an ownership mark) under a token scheduler that releases one goroutine at a time from the plan's pre-drawn schedule and is invisible to the Go race detector (//go:norace spin on a plain word). Judge 1: the race detector's report stream must be empty. Judge 2: every operation's result equals the result of that goroutine's list re-executed alone. The simulated bank pool contributes exactly sync.Pool's Put->Get edge per bank.",
    design_ref="§5 C12",
    note="Sampled schedules. Race detector limits apply (bounded shadow history, one report per stack pair per process). Interleavings are chosen at yield points only: every SimDisk read/write, callback, operation boundary, and (hooks) before the registry, schema-registry and tz-cache locks and at pool get/put — an atomicity violation between two instructions with no yield point between them and no data race (e.g. an unlocked load-clone-store of an atomic pointer) is out of reach (DESIGN §13.1). Half of the plans use 1-4 operation kinds only and a third never recycle a bank, because lock hand-overs and recycled banks are legitimate happens-before edges that would otherwise order everything. SUPPLEMENT (1 plan in 8, labelled 'parallel burst', outside the deterministic simulation and not exactly replayable — the replay command retries up to 40 times): all goroutines are released at once on 8 OS threads and repeat their lists 30-5000 times under the race detector and the run-alone oracle, for atomicity violations that have neither a yield point nor a data race.",
    technique="deterministic simulation: seeded token scheduler over real goroutines (race-detector-invisible) + Go race detector as happens-before judge + run-alone equivalence oracle"),
  "C06": dict(
    category="exploration",
-   text="SCOPED to storage faults on valid artifacts (DESIGN §5 C06): valid files from the real Encoder and from the reference writer (17 curated types + 7 wire schemas reaching every codec kind, 3 codecs + no-codec) are damaged by 1..3 faults per case — bit flips, byte overwrites, zeroed/junk sectors, ranges stored twice or lost, truncation, read errors, structure-aware rewrites of single encoded fields (17 varint classes incl. negative/zero/max/overflowing/unterminated varints; body classes; raw and consistent variants), header varint rewrites, schema-text damage — and read through ReadFile (full, projected and empty target) and Schema.Codec+Codec.Read/Skip on damaged block bodies. Every 12th (quick: 30th) plan ENUMERATES every (field site x class x variant) of its artifact. Oracle: no panic, no worker death, CPU budget, allocation <= 16 MiB + 200 x (input + decompressed size).",
+   text="SCOPED to storage faults on valid artifacts (DESIGN §5 C06): valid files from the real Encoder and from the reference writer (18 curated types + 8 wire schemas reaching every codec kind, 3 codecs + no-codec) are damaged by 1..3 faults per case — bit flips, byte overwrites, zeroed/junk sectors, ranges stored twice or lost, truncation, read errors, structure-aware rewrites of single encoded fields (24 varint classes incl. negative/zero/max/overflowing/unterminated varints and counts whose product with an item width wraps around 64 bits; body classes; raw and consistent variants), header varint rewrites, schema-text damage — and read through ReadFile (full, projected and empty target) and Schema.Codec+Codec.Read/Skip on damaged block bodies. Every 12th (quick: 30th) plan ENUMERATES every (field site x class x variant) of its artifact. Oracle: no panic, no worker death, CPU budget, allocation <= 16 MiB + 200 x (input + decompressed size).",
    design_ref="§5 C06",
-   note="NOT covered: free-standing fuzzing of SchemaFromString, parseTime or Codec.Read with unrelated byte strings (pure functions of their input; not a simulation target). Known finding D11 (unbounded count of zero-width items) is recorded by input class in known_findings.json; a hang / OOM outside that input class is still reported.",
+   note="Timestamp text is also offered to the parser directly (24 texts per plan: a well-formed RFC 3339 time with one component at or beyond its boundary, decoded as time.Time, *time.Time and null.Time). Workers are built with checkptr: a store or conversion that leaves its allocation is a crash at that instruction. NOT covered: free-standing fuzzing of SchemaFromString or Codec.Read with unrelated byte strings (pure functions of their input; not a simulation target). Known finding D11 (unbounded count of zero-width items) is recorded by input class in known_findings.json; a hang / OOM outside that input class is still reported.",
    technique="deterministic simulation: SimDisk stored-byte / torn-write / read-error faults and structure-aware single-field rewrites on valid artifacts; child-process workers with CPU and allocation oracles"),
 }
 
@@ -105,7 +105,7 @@ def main():
         "setup_cmd": "./check build",
         "hooks": {
             "guard": "verif",
-            "enable": "go build -tags verif (the check script builds the harness module /verif/sim with `replace github.com/philpearl/avro => /repo` and -tags verif; C12 additionally -race)",
+            "enable": "go build -tags verif (the check script builds the harness module /verif/sim with `replace github.com/philpearl/avro => /repo` and -tags verif and -gcflags=all=-d=checkptr; C12 additionally -race)",
             "baseline_off_cmd": "./check baseline-off",
             "source_commits": hooks_commits,
             "add_only": True,
